@@ -62,6 +62,11 @@ func (x *runner) exec(f []string) {
 			return env.HRead(u64(a[0]), uint32(u64(a[1])))
 		case "hd":
 			return env.HDelete(u64(a[0]), uint32(u64(a[1])))
+		case "reload":
+			if err := env.Reload(); err != nil {
+				return []string{"err"}
+			}
+			return []string{"ok"}
 		case "sorted":
 			if err := env.ReopenSorted(); err != nil {
 				return []string{"err"}
@@ -351,6 +356,75 @@ func sortedHistory(x *runner, rng *hx.Rng, nops int) {
 	}
 }
 
+// lateKey: a volume with > 128 keys written in ascending order, then file ids far below the
+// largest one arrive late (the in-memory CompactMap keeps a key that is inserted more than 128
+// positions below its section's last key in the section's OVERFLOW area, with its own
+// set/get/delete code). For each late id: write, read, delete, read (must be gone), write again
+// over the deleted entry, read; a few are left deleted. Then a restart (Store close + reopen,
+// the index is rebuilt from the .idx log) and everything is read again. Tiny payloads.
+func lateKey(x *runner, rng *hx.Rng, kind string, base uint64) {
+	x.exec([]string{"reset", kind, "-"})
+	ck := uint32(rng.U64())
+	n := 300 + rng.Intn(60)
+	step := uint64(2 + rng.Intn(3))
+	for i := 1; i <= n; i++ {
+		x.w(base+uint64(i)*step, ck, plain(string(rune('a'+i%26))))
+	}
+	max := base + uint64(n)*step
+	var late []uint64
+	seen := map[uint64]bool{}
+	for len(late) < 5 {
+		// not a multiple of step => a new key; at least 140 keys above it
+		id := base + uint64(1+rng.Intn(n-150))*step + 1 + uint64(rng.Intn(int(step)-1))
+		if !seen[id] {
+			seen[id] = true
+			late = append(late, id)
+		}
+	}
+	for j, id := range late {
+		x.w(id, ck, plain(fmt.Sprintf("late-%d", j)))
+		x.op2("r", id, ck)
+		if j == 3 {
+			x.op2("hd", id, ck)
+		} else {
+			x.op2("d", id, ck)
+		}
+		x.op2("r", id, ck)
+		if j == 3 {
+			x.op2("hr", id, ck)
+		}
+		if j%2 == 0 {
+			x.w(id, ck, plain(fmt.Sprintf("again-%d", j)))
+			x.op2("r", id, ck)
+		}
+		if j == 2 {
+			x.op2("d", id, ck) // deleted for the second time
+			x.op2("r", id, ck)
+		}
+	}
+	// controls: an in-order key and a key that is only slightly out of order
+	x.w(max+step, ck, plain("tail"))
+	x.w(max-1, ck, plain("near"))
+	x.op2("d", max-1, ck)
+	x.op2("r", max-1, ck)
+	x.exec([]string{"reload"})
+	for _, id := range late {
+		x.op2("r", id, ck)
+		x.op2("hr", id, ck)
+	}
+	x.op2("r", max-1, ck)
+	x.op2("r", max+step, ck)
+	x.op2("r", base+step, ck)
+	// the restarted volume keeps working on the late ids
+	x.op2("d", late[0], ck)
+	x.op2("r", late[0], ck)
+	x.w(late[1], ck, plain("after-restart"))
+	x.op2("r", late[1], ck)
+	x.exec([]string{"reload"})
+	x.op2("r", late[0], ck)
+	x.op2("r", late[1], ck)
+}
+
 type task func(x *runner, rng *hx.Rng)
 
 func main() {
@@ -405,6 +479,16 @@ func main() {
 				ttl = "3h"
 			}
 			randomHistory(x, rng, kind, ttl, 50+rng.Intn(351), i%3 != 0)
+		})
+	}
+	for i := 0; i < a.N(6); i++ {
+		i := i
+		tasks = append(tasks, func(x *runner, rng *hx.Rng) {
+			kind := "mem"
+			if i%3 == 2 {
+				kind = "ldb" // control: no overflow area there
+			}
+			lateKey(x, rng, kind, uint64(i%2)*99990) // odd: across a 100000-key section boundary
 		})
 	}
 	for i := 0; i < a.N(10); i++ {
